@@ -112,6 +112,9 @@ type knode struct {
 	// stores kept for re-use as decode targets (cleared between uses)
 	scratchPos, scratchNeg store.Store
 	tainted                bool
+	// dirty: a decode into this sketch was refused half-way (state after an error is
+	// not constrained); only Clear brings the node back under observation (C15).
+	dirty bool
 }
 
 func (k *knode) alpha() float64 { return float64(k.spec.Alpha) }
@@ -316,6 +319,9 @@ func (x *fleetExec) step(e engine.Event) {
 	}
 	sig := x.sigFor(e)
 	done := false
+	if nd.dirty && e.Ev != "clear" {
+		return
+	}
 	if post := x.hook.before(x, e, nd); post != nil {
 		defer post()
 	}
@@ -395,6 +401,7 @@ func (x *fleetExec) step(e engine.Event) {
 		nd.each(func(s sk) { x.lib("Clear", sig, func() { s.Clear() }) })
 		nd.model.Clear()
 		nd.tainted = false
+		nd.dirty = false
 		if x.prop == "C15" {
 			nd.twin = x.newSketch(&nd.spec, nd.mapping)
 		}
@@ -658,7 +665,17 @@ func (x *fleetExec) deliver(e engine.Event, nd *knode, sig string) bool {
 		return false
 	}
 	if nd.exact() && !m.exact {
-		return false // documented: the exact decoder cannot take a plain encoding
+		// documented: the exact decoder cannot take a plain encoding. In C15 the refused decode is
+		// performed all the same - its owner then clears the sketch and re-uses it.
+		if x.prop == "C15" && (m.form == "bin" || m.form == "binomit") && e.S == "merge" && !m.model.IsEmpty() && nd.twin == nil && nd.replica == nil {
+			var err error
+			x.lib("DecodeAndMergeWith", sig, func() { err = nd.real.DecodeAndMergeWith(append([]byte(nil), m.data...)) })
+			if err != nil {
+				nd.dirty = true
+				x.st.Fault("refused-decode-left-partial-state")
+			}
+		}
+		return false
 	}
 	if m.exact && !nd.exact() && (m.form == "bin" || m.form == "binomit") && x.prop != "C07" && x.prop != "C10" {
 		return false
